@@ -11,6 +11,8 @@ use std::sync::{Arc, Mutex};
 pub enum Msg {
     V(VMsg),
     R(RMsg),
+    /// event digest of one world (self-test)
+    D(String, u64),
     /// worker died while running `tag` of `item`
     Died { tag: String, status: String, diag: String, item: Item },
     /// harness-level failure (cannot spawn, protocol error)
@@ -35,7 +37,7 @@ pub fn scratch_base() -> String {
     format!("{}/simc-{}", base, std::process::id())
 }
 
-pub const MEM_LIMIT_KB: u64 = 3 * 1024 * 1024;
+pub const MEM_LIMIT_KB: u64 = 1536 * 1024;
 
 impl WorkerProc {
     pub fn spawn(slot: usize) -> Result<WorkerProc, String> {
@@ -73,6 +75,10 @@ impl WorkerProc {
 
     /// Reads messages until the item's `R`; on EOF returns Err(last announced tag).
     pub fn collect(&mut self, mut on_v: impl FnMut(VMsg)) -> Result<RMsg, (String, String)> {
+        self.collect_d(&mut on_v, |_, _| {})
+    }
+
+    pub fn collect_d(&mut self, on_v: &mut dyn FnMut(VMsg), mut on_d: impl FnMut(String, u64)) -> Result<RMsg, (String, String)> {
         let mut last = String::new();
         let mut last_world = String::new();
         let mut line = String::new();
@@ -87,6 +93,10 @@ impl WorkerProc {
                 last = t.to_string();
                 if t != "ref" {
                     last_world = t.to_string();
+                }
+            } else if let Some(d) = l.strip_prefix("D ") {
+                if let Some((t, h)) = d.rsplit_once(' ') {
+                    on_d(t.to_string(), h.parse().unwrap_or(0));
                 }
             } else if let Some(j) = l.strip_prefix("V ") {
                 match serde_json::from_str::<VMsg>(j) {
@@ -116,7 +126,7 @@ impl WorkerProc {
             Err(e) => format!("wait failed: {}", e),
         };
         let diag = std::fs::read(format!("{}/diag.out", self.dir)).map(|b| String::from_utf8_lossy(&b).to_string()).unwrap_or_default();
-        let tail: String = diag.chars().rev().take(400).collect::<String>().chars().rev().collect();
+        let tail: String = diag.chars().rev().take(3000).collect::<String>().chars().rev().collect();
         (status, tail)
     }
 
@@ -192,9 +202,15 @@ pub fn run_pool(n: usize, items: Vec<Item>) -> Receiver<Msg> {
                     return;
                 }
                 let txv = tx.clone();
-                match wp.collect(|v| {
-                    let _ = txv.send(Msg::V(v));
-                }) {
+                let txd = tx.clone();
+                match wp.collect_d(
+                    &mut |v| {
+                        let _ = txv.send(Msg::V(v));
+                    },
+                    |t, d| {
+                        let _ = txd.send(Msg::D(t, d));
+                    },
+                ) {
                     Ok(r) => {
                         let _ = tx.send(Msg::R(r));
                     }
